@@ -32,6 +32,15 @@ var HarnessDirs = map[string]string{
 	"streams": "internal/streams",
 	"murmur":  "internal/murmur",
 	"lru":     "internal/lru",
+	"lz4":     "lz4", // a Go module of its own (github.com/gocql/gocql/lz4): loaded separately, see moduleOf
+}
+
+// moduleOf names the nested module a package belongs to ("" = the root module).
+func moduleOf(pkgPath string) string {
+	if pkgPath == "github.com/gocql/gocql/lz4" {
+		return "lz4"
+	}
+	return ""
 }
 
 type Loaded struct {
@@ -56,13 +65,22 @@ func BuildOverlay(repo, harnessRoot string, withTests bool) (map[string]string, 
 	return ov, nil
 }
 
-func LoadProgram(repo, harnessRoot string, tags []string) (*Loaded, error) {
+func LoadProgram(repo, harnessRoot string, tags []string, module string) (*Loaded, error) {
 	ov, err := BuildOverlay(repo, harnessRoot, false)
 	if err != nil {
 		return nil, err
 	}
 	overlay := map[string][]byte{}
+	modDir := repo
+	if module != "" {
+		modDir = filepath.Join(repo, HarnessDirs[module])
+	}
 	for virt, real := range ov {
+		// harness files of nested modules only take part in the load of that module
+		inNested := strings.HasPrefix(virt, filepath.Join(repo, "lz4")+string(filepath.Separator))
+		if inNested != (module == "lz4") {
+			continue
+		}
 		b, err := os.ReadFile(real)
 		if err != nil {
 			return nil, err
@@ -71,7 +89,7 @@ func LoadProgram(repo, harnessRoot string, tags []string) (*Loaded, error) {
 	}
 	cfg := &packages.Config{
 		Mode:    packages.LoadAllSyntax,
-		Dir:     repo,
+		Dir:     modDir,
 		Overlay: overlay,
 		Env:     append(os.Environ(), "GOFLAGS=-mod=mod", "GOPROXY=off", "GOSUMDB=off", "GOTOOLCHAIN=local"),
 	}
@@ -80,13 +98,19 @@ func LoadProgram(repo, harnessRoot string, tags []string) (*Loaded, error) {
 	}
 	var pats []string
 	seen := map[string]bool{}
-	for _, rel := range HarnessDirs {
+	for sub, rel := range HarnessDirs {
+		if sub == "lz4" {
+			continue
+		}
 		if !seen[rel] {
 			seen[rel] = true
 			pats = append(pats, "./"+rel)
 		}
 	}
 	sort.Strings(pats)
+	if module != "" {
+		pats = []string{"."}
+	}
 	pkgs, err := packages.Load(cfg, pats...)
 	if err != nil {
 		return nil, err
@@ -486,12 +510,12 @@ func Run(cfg RunConfig) (*RunOutput, error) {
 	}
 	// group entries by tag set so each tag set is loaded once
 	loads := map[string]*Loaded{}
-	getLoad := func(tags []string) (*Loaded, error) {
-		k := strings.Join(tags, ",")
+	getLoad := func(tags []string, module string) (*Loaded, error) {
+		k := module + "|" + strings.Join(tags, ",")
 		if l, ok := loads[k]; ok {
 			return l, nil
 		}
-		l, err := LoadProgram(cfg.Repo, cfg.Harness, tags)
+		l, err := LoadProgram(cfg.Repo, cfg.Harness, tags, module)
 		if err != nil {
 			return nil, err
 		}
@@ -511,7 +535,7 @@ func Run(cfg RunConfig) (*RunOutput, error) {
 		if e.ThoroughOnly && cfg.Tier != "thorough" {
 			continue
 		}
-		l, err := getLoad(e.Tags)
+		l, err := getLoad(e.Tags, moduleOf(e.Pkg))
 		if err != nil {
 			return nil, err
 		}
